@@ -77,6 +77,11 @@ func (c *Client) Close() error {
 		ctx, cancelFunc := context.WithTimeout(context.Background(), time.Second*5)
 		defer cancelFunc()
 		_, err := c.channel.FinishSession(ctx)
+		if err != nil {
+			// the graceful way did not work (nobody consumes the inbound streams anymore,
+			// so the answer may never be read): still release the receiver and the connection
+			_ = c.channel.Close()
+		}
 		c.channel = nil
 		return err
 	}
